@@ -413,14 +413,11 @@ func runC10(t *testing.T, sci interface{}, keepLog bool) (o *hx.Outcome) {
 		}
 		var written []item
 		if sc.ResetPrelude {
-			// junk, then Reset: the buffer must be as good as new
+			// junk, then Reset, before the writes proper. (Reset is not part of the property's statement: nothing is judged
+			// here; if it left bytes behind, the typed reads below would return them instead of the written values.)
 			w.WriteString("junk that must not survive")
 			w.WriteU64(0xdeadbeef)
 			w.Reset()
-			if w.Len() != 0 || len(w.Bytes()) != 0 {
-				fail("reset-leaves-bytes", "after Reset the buffer still holds %d bytes", w.Len())
-				return
-			}
 			o.Counts["reset-before-writes"]++
 		}
 		for _, it := range sc.Items {
